@@ -20,6 +20,7 @@ package message1_1
 
 import (
 	"io"
+	"strings"
 
 	"github.com/ipfs/go-cid"
 	"github.com/ipld/go-ipld-prime"
@@ -532,3 +533,71 @@ func VerifC12_MissingBody() {
 }
 
 var _ = peer.ID("")
+
+// ---- published schema pin (native only) ---------------------------------------------------------
+//
+// "its bytes are exactly the DAG-CBOR map laid down by the published schema, so peers running
+// other builds interoperate": the byte-level encoder is bindnode + dagcbor (a dependency, outside
+// what the solver decides), and what it emits is determined by the schema it is bound to. The
+// schema is embedded with go:embed (not visible to the SSA interpreter), so this conformance check
+// runs natively only: the embedded schema, comments and spacing aside, is the published one.
+// It is a pin, not a proof: any change of a field's name, rename, kind, optionality or order is
+// reported and has to be acknowledged here.
+const verifPublishedSchema = `type PeerID string
+type TransferID int
+type TypeIdentifier string
+type ChannelID struct {
+Initiator PeerID
+Responder PeerID
+ID TransferID
+} representation tuple
+type TransferRequest struct {
+BaseCidPtr nullable Link (rename "BCid")
+MessageType Int (rename "Type")
+Pause Bool (rename "Paus")
+Partial Bool (rename "Part")
+Pull Bool (rename "Pull")
+SelectorPtr nullable Any (rename "Stor")
+VoucherPtr nullable Any (rename "Vouch")
+VoucherTypeIdentifier TypeIdentifier (rename "VTyp")
+TransferId Int (rename "XferID")
+RestartChannel ChannelID
+}
+type TransferResponse struct {
+MessageType Int (rename "Type")
+RequestAccepted Bool (rename "Acpt")
+Paused Bool (rename "Paus")
+TransferId Int (rename "XferID")
+VoucherResultPtr nullable Any (rename "VRes")
+VoucherTypeIdentifier TypeIdentifier (rename "VTyp")
+}
+type TransferMessage1_1 struct {
+IsRequest Bool (rename "IsRq")
+Request nullable TransferRequest
+Response nullable TransferResponse
+}`
+
+func verifNormalizeSchema(s string) string {
+	var out []string
+	for _, l := range strings.Split(s, "\n") {
+		if i := strings.Index(l, "#"); i >= 0 {
+			l = l[:i]
+		}
+		l = strings.Join(strings.Fields(l), " ")
+		if l != "" {
+			out = append(out, l)
+		}
+	}
+	return strings.Join(out, "\n")
+}
+
+// VerifC12_PublishedSchemaPinned: see above.
+//
+//verif:opts nativeonly
+func VerifC12_PublishedSchemaPinned() {
+	zz.Reach("native-only schema pin")
+	if zz.Engine() {
+		return
+	}
+	zz.Assert(verifNormalizeSchema(string(embedSchema)) == verifPublishedSchema, "the embedded schema is the published one (comments and spacing aside)")
+}
